@@ -36,6 +36,14 @@ def plan_batches(steps, R, P, faulty):
                                               'payload': [N('story', T('storyID', 'early-%d' % low), T('storySlug', 'early'))]},
                           'knobs': {}, 'path': 'str', 'merge': False, 'extra': True})
         st = _store_steps(steps)
+    same_mid_extra = None
+    if R.random() < 0.12:
+        # another message filed under the roCreate's own message id (the roCreate leaves the readers, this one stays)
+        steps.append({'k': 'msg', 'op': {'type': R.choice(['ReadyToAir', 'StoryAppend']), 'ro_id': ro_id, 'mid': create['mid'], 'env': {},
+                                          'shapes': {}, 'payload': [N('story', T('storyID', 'same-mid'), T('storySlug', 'x'))]},
+                      'knobs': {}, 'path': 'str', 'merge': False, 'extra': True, 'remid': True, 'key': 'same-mid-as-create.mos.xml'})
+        st = _store_steps(steps)
+        same_mid_extra = len(st) - 1
     usable = [i for i, s in enumerate(st) if s['op']['type'] != 'Raw' and not s.get('corrupt') and not s['op'].get('malformed') and not s.get('remid')]
     n_batches = R.choice([1, 1, 2, 3])
     for _ in range(n_batches):
@@ -73,6 +81,8 @@ def plan_batches(steps, R, P, faulty):
         elif kind == 'subset' and sel:
             keep = max(1, len(sel) - R.randint(1, 3))
             sel = sorted(R.sample(sel, keep))
+        if same_mid_extra is not None and sel and R.random() < 0.7:
+            sel.insert(R.randint(0, len(sel)), same_mid_extra)
         st = _store_steps(steps)
         order = list(range(len(sel)))
         R.shuffle(order)
@@ -266,8 +276,15 @@ def do_batch(run, step):
         return
     if got_ro != create_ent['mid'] or type(mc.ro) is not MT.RunningOrder:
         add('C11.after', 'the collection\'s running order is %r (%s), expected the roCreate %r' % (got_ro, type(mc.ro).__name__, create_ent['mid']))
+    try:
+        got_kinds = sorted((r.message_id, r.mos_type.__name__) for r in mc.mos_readers)
+    except Exception:    # noqa
+        got_kinds = None
+    want_kinds = sorted((e['mid'], O.expected_class(e['op'])) for e in others)
     if sorted(got_ids) != mids:
         add('C11.after', 'readers %r, expected every message but the roCreate %r' % (got_ids, mids))
+    elif got_kinds is not None and got_kinds != want_kinds:
+        add('C11.after', 'the remaining readers are %r, expected %r (every message but the roCreate)' % (got_kinds[:8], want_kinds[:8]))
     elif got_ids != mids:
         add('C10.order', 'readers are ordered %r, expected ascending numeric %r' % (got_ids, mids))
         run.probes['width-crossing'] += 1
